@@ -265,7 +265,13 @@ def oracle_protect(scope_name):
         'target-btsd-only': {-1: 2},
         'omitted-param': None,
     }
-    return B.encode(A.add_bib(bundle, [1], KEY, KID, SRC, scope=scopes[scope_name], num=(4 if other == 3 else 30)))
+    source = SRC
+    if scope_name == 'ipn3-endpoints':
+        # three-number ipn endpoint IDs (allocator, node, service) as source, report-to and security source
+        bundle['primary'].update(src='ipn:977000.3.7', report_to='ipn:977000.5.1')
+        source = 'ipn:977000.3.9'
+        scopes[scope_name] = {0: 1, -1: 1}
+    return B.encode(A.add_bib(bundle, [1], KEY, KID, source, scope=scopes[scope_name], num=(4 if other == 3 else 30)))
 
 
 # ---------------------------------------------------------------------------
@@ -381,6 +387,16 @@ def field_edits(orig):
     variant('primary-report-to', lambda b: b['primary'].update(report_to='dtn://evil/'))
     variant('primary-timestamp', lambda b: b['primary'].update(ts=(b['primary']['ts'][0], b['primary']['ts'][1] + 1)))
     variant('security-source', edit_asb(lambda a: a.update(source='dtn://evil/')))
+
+    def last_number(eid):
+        (head, _dot, tail) = eid.rpartition('.')
+        if not eid.startswith('ipn:') or not tail.isdigit():
+            raise ValueError('not an ipn endpoint ID')
+        return '%s.%d' % (head, int(tail) + 1)
+    # only for ipn endpoint IDs: the last number changed (for three-number IDs the third)
+    variant('security-source-last-number', edit_asb(lambda a: a.update(source=last_number(a['source']))))
+    variant('primary-source-last-number', lambda b: b['primary'].update(src=last_number(b['primary']['src'])))
+    variant('primary-report-to-last-number', lambda b: b['primary'].update(report_to=last_number(b['primary']['report_to'])))
     variant('retarget-to-other-block', edit_asb(lambda a: a.update(targets=[3] + a['targets'][1:])))
 
     def scope_edit(a):
@@ -625,7 +641,7 @@ def scenarios(tier):
     add('mac-kw', 'mac-kw', parts=2)
     add('sign1-x5t', 'sign1-x5t', parts=3)
     add('sign1-x5chain', 'sign1-x5chain', parts=6 if tier == 'thorough' else 4)
-    for scope in ('default', 'with-secblk', 'other-metadata', 'other-btsd', 'target-btsd-only', 'omitted-param'):
+    for scope in ('default', 'with-secblk', 'other-metadata', 'other-btsd', 'target-btsd-only', 'omitted-param', 'ipn3-endpoints'):
         add('oracle-%s' % scope, 'oracle:%s' % scope)
     if tier == 'thorough':
         # the same alteration sets over other bundle shapes
